@@ -160,6 +160,17 @@ def rule_props(facts):
     return r
 
 
+def _sub(t, out=None):
+    out = [] if out is None else out
+    if isinstance(t, tuple):
+        if t and isinstance(t[0], str):
+            out.append(t)
+        for x in t:
+            if isinstance(x, tuple):
+                _sub(x, out)
+    return out
+
+
 def rule_sizes(facts):
     r = report.RuleResult("C17.R3", "the payload is limited to the declared compressed size; the output target is declared + produced")
     p = pat.body_of(facts, "Lzma2Decoder::parse_lzma")
@@ -185,26 +196,72 @@ def rule_sizes(facts):
                   "declared compressed size", where)
             continue
         lim = takes[0][2][1]
-        if pat.has_call(lim, "read_u16") and lim and pat.has_op(lim, ("Add",)) and pat.has_const(lim, 1) and \
-                not pat.has_op(lim, ("Shl", "Mul", "BitOr")):
-            r.ok("term", {"take limit": flow.show(lim)[:80]})
+        # evaluated: the limit is be16 + 1 for the packed-size field (the second u16 read), over the whole field range
+        u16s = sorted({q[3] for q in _sub(lim) if q[0] == "call" and q[1].endswith("read_u16") and len(q) > 3})
+        bad = None
+        try:
+            for v in (0, 1, 0x7FFF, 0xFFFE, 0xFFFF):
+                got = pat.eval_term(lim, lambda q, v=v: v if (q[0] in ("ok", "try") and pat.has_call(q, "read_u16")) else
+                                    (_ for _ in ()).throw(pat.NotEvaluable(q)))
+                if got != v + 1:
+                    bad = "a packed-size field of 0x%04x limits the chunk to %d bytes, the format says %d" % (v, got, v + 1)
+                    break
+        except pat.Overflow:
+            bad = "the compressed-size limit overflows for a field value of 0xFFFF"
+        except pat.NotEvaluable:
+            bad = "the compressed-size limit is not a function of the packed-size field: %s" % flow.show(lim)[:80]
+        if bad or len(u16s) != 1:
+            r.bad("parse_lzma|take-limit", bad or "the compressed-size limit mixes two size fields", where)
         else:
-            r.bad("parse_lzma|take-limit", "the compressed-size limit is not be16 + 1: %s" % flow.show(lim)[:100], where)
+            r.ok("evaluation", {"take limit": "be16 + 1 for 0, 1, 0x7FFF, 0xFFFE, 0xFFFF"})
         if pat.has_arg(takes[0][2][0], "input"):
             r.ok("provenance", {"take over": "the chunk loop's input"})
         else:
             r.bad("parse_lzma|take-source", "the limited reader is not the caller's input", where)
         sets = [b2 for b2 in p.calls() if (flow.callee(b2.term) or "").endswith("set_unpacked_size")]
         okk = False
+        why = "no set_unpacked_size before decoding"
         for s in sets:
             a = tm.of_operand(s.term.args[1])
-            if c.dominates(s.idx, blk.idx) and pat.has_call(a, "LzBuffer::len") and pat.has_call(a, "read_u16") and \
-                    pat.has_arg(a, "status") and pat.has_const(a, 0x1F) and pat.has_const(a, 16) and pat.has_const(a, 1):
+            if not c.dominates(s.idx, blk.idx):
+                continue
+            # evaluated: Some(((status & 0x1F) << 16 | be16) + 1 + produced) for a grid incl. the carry cases
+            inner = a
+            if inner[0] == "agg" and str(inner[1]).endswith("Option::Some"):
+                inner = inner[2][0]
+            try:
                 okk = True
-                r.ok("term", {"output target": flow.show(a)[:140]})
+                for st_ in (0x80, 0x81, 0x9F, 0xE0, 0xE1, 0xFF):
+                    for lo_ in (0, 1, 0xFFFE, 0xFFFF):
+                        for prod in (0, 7, 1 << 20):
+                            def leaf(q, st_=st_, lo_=lo_, prod=prod):
+                                if q[0] == "arg" and q[2] == "status":
+                                    return st_
+                                if q[0] in ("ok", "try") and pat.has_call(q, "read_u16"):
+                                    return lo_
+                                if q[0] == "call" and q[1].endswith("LzBuffer::len"):
+                                    return prod
+                                raise pat.NotEvaluable(q)
+                            got = pat.eval_term(inner, leaf)
+                            want = (((st_ & 0x1F) << 16) | lo_) + 1 + prod
+                            if got != want:
+                                okk = False
+                                why = "control byte 0x%02x with size field 0x%04x and %d bytes produced sets the target to %d, the format says %d" % (
+                                    st_, lo_, prod, got, want)
+                                break
+                        if not okk:
+                            break
+                    if not okk:
+                        break
+            except pat.Overflow:
+                okk, why = False, "the output target computation overflows"
+            except pat.NotEvaluable as ex:
+                okk, why = False, "cannot evaluate the output target %s" % flow.show(a)[:80]
+            if okk:
+                r.ok("evaluation", {"output target": "((status & 0x1F) << 16 | be16) + 1 + produced on 72 points incl. 0xFFFF carries"})
+                break
         if not okk:
-            r.bad("parse_lzma|target", "the chunk's output target is not set to ((status & 0x1F) << 16 | be16) + 1 + "
-                  "bytes already produced before decoding", where)
+            r.bad("parse_lzma|target", "the chunk's output target is wrong: %s" % why, where)
     return r
 
 
